@@ -314,7 +314,10 @@ def run_check(prop, tier):
             "steps_per_hour": int(steps / max(wall, 1e-9) * 3600),
             "hash_seeds_used": len(by_worker),
             "distinct_history_shapes": len(shapes),
-            "counters": {k: v for k, v in sorted(tot.items()) if not k.startswith("cell:")},
+            "counters": {k: v for k, v in sorted(tot.items()) if not k.startswith("cell:") and not k.startswith("state:")},
+            "distinct_abstract_states": sum(1 for k in tot if k.startswith("state:")),
+            "abstract_state_measure": STATE_MEASURE[prop],
+            "interference_fired": _interference(prop, tot, len(by_worker)),
             "cells": _cells(tot),
             "determinism_miniature": det,
             "reach": reach,
@@ -354,6 +357,23 @@ def run_check(prop, tier):
     c = evidence["coverage"]
     print("%s %s: %s histories, %s distinct non-trivial, %s steps, wall %.1fs, exit %d" % (prop, tier, c.get("evaluations"), c.get("distinct_nontrivial"), c.get("logical_steps"), evidence["wall_s"], rc))
     return rc
+
+
+STATE_MEASURE = {
+    "C07": "distinct (subject type, constructor form, moves so far, at origin?, return value live?, copies held, op kind) tuples seen after a step",
+    "C19": "distinct (type, digits when A was built, digits when A' was built, digits at check, displacement exponent k, moved?) tuples of asserted near-pairs",
+    "C20": "distinct (query, operand types and kinds, operand mutation counts capped at 2, outcome class) tuples of executed queries",
+}
+
+
+def _interference(prop, tot, nseeds):
+    g = lambda k: tot.get(k, 0)
+    pre = lambda p: sum(v for k, v in tot.items() if k.startswith(p))
+    if prop == "C07":
+        return {"chained-receiver": g("chained"), "switch-to-copy": g("switched"), "deepcopy-then-diverge (copies observed at another t)": g("copies_diverged_observed"), "exception-path (queries that raise, compared by class)": g("exception_path_queries"), "return-to-earlier-position": g("I4_round_trips"), "hash-order (distinct PYTHONHASHSEED values)": nseeds, "moves": g("op:MOVE")}
+    if prop == "C19":
+        return {"config-change (setter calls)": pre("setter:"), "config-change between construction and check (asserted pairs)": g("J2_pairs_built_under_other_config"), "excursions (leave and restore a configuration)": g("excursions_completed"), "in-place move under non-default configuration": g("pairs_moved"), "non-power-of-ten settings": g("setter:set_eps(nonpower)"), "hash-order (distinct PYTHONHASHSEED values)": nseeds}
+    return {"alias-mutation (in-place mutations)": g("op:MUTATE"), "alias-mutation of a leaf with live dependents": g("mutations_of_leaf_with_live_dependents"), "exception-path (raising queries bracketed by snapshots)": g("raising_queries"), "cold replays (history erased)": g("cold_replays"), "re-asks": g("K3_reasks"), "deep copies": g("op:DEEPCOPY"), "hash-order (distinct PYTHONHASHSEED values)": nseeds}
 
 
 def _cells(tot):
